@@ -1,8 +1,11 @@
 package drivers
 
 import (
+	"crypto/tls"
 	"encoding/json"
 	"fmt"
+	"github.com/fiorix/go-diameter/v4/diam"
+	"io"
 	"math/rand"
 	"net"
 	"strings"
@@ -341,6 +344,10 @@ func CER(a Args) error {
 				out.Emit(runCER(id, &c, wfail, dapps, a.Repo))
 			case 2, 6: // the same CER on a state machine that has already served another connection
 				out.Emit(runCER(id, &c, warm, dapps, a.Repo))
+			case 3: // the same CER on a connection accepted from a TLS listener
+				if id%16 == 3 || c.Inband == "nonzero" {
+					out.Emit(runCERTLS(id, &c, dapps))
+				}
 			}
 			return nil
 		})
@@ -386,4 +393,101 @@ func CER(a Args) error {
 		out.Emit(runCER(id, &c, variants[r.Intn(len(variants))], dapps, a.Repo))
 	}
 	return nil
+}
+
+// runCERTLS: the same CER on a connection accepted from a TLS listener (tls.NewListener over an in-memory pipe).
+// Transport security does not change what a CER must satisfy: in particular a CER that requires in-band
+// security is refused there as anywhere else.
+func runCERTLS(id int, c *cerSpec, dapps []appRef) cerLine {
+	c.Items = fixItems(c.Items)
+	set := &sm.Settings{OriginHost: srvSettings.OriginHost, OriginRealm: srvSettings.OriginRealm, VendorID: 13, ProductName: "verif-srv"}
+	cs := cerSettings{OH: string(set.OriginHost), OR: string(set.OriginRealm), HostIPs: [][]int{}, LocalIPs: [][]int{addrInts(net.ParseIP("10.0.0.1"))}, Local: "10.0.0.1:3868", CanAnswer: true}
+	l := cerLine{Ev: "cer", ID: id, Cer: *c, DictApps: dapps, Settings: cs, Peer: peerID{OH: peerHost, OR: peerRealm}, Note: "tls",
+		Obs: cerObs{CEA: ceaObs{HostIPs: [][]int{}, HbH: []int{}, E2E: []int{}, Apps: []appRef{}}, Meta: metaObs{Apps: [][]int{}}}}
+	switch c.OH {
+	case "empty", "absent":
+		l.Peer.OH = ""
+	}
+	cert, err := selfSigned()
+	if err != nil {
+		l.Note = "tls: no certificate: " + err.Error()
+		return l
+	}
+	s := &smServer{SM: sm.New(set), Conn: memnet.NewConn(), ch: make(chan struct{}, 64), stop: make(chan struct{})}
+	s.SM.HandleFunc("ALL", s.record("ALL"))
+	go func() {
+		for {
+			select {
+			case <-s.SM.ErrorReports():
+			case <-s.stop:
+				return
+			}
+		}
+	}()
+	defer close(s.stop)
+	pl := newPipeListener()
+	defer pl.Close()
+	go (&diam.Server{Handler: s.SM}).Serve(tls.NewListener(pl, &tls.Config{Certificates: []tls.Certificate{cert}}))
+	srvEnd, cliEnd := net.Pipe()
+	defer cliEnd.Close()
+	pl.ch <- addrConn{srvEnd}
+	tc := tls.Client(cliEnd, &tls.Config{InsecureSkipVerify: true})
+	tc.SetDeadline(time.Now().Add(3 * time.Second))
+	if err := tc.Handshake(); err != nil {
+		l.Note = "tls: handshake: " + err.Error()
+		return l
+	}
+	readOne := func(d time.Duration) (*wireMsg, bool) { // (message, stream ended)
+		tc.SetReadDeadline(time.Now().Add(d))
+		hdr := make([]byte, 20)
+		if _, err := io.ReadFull(tc, hdr); err != nil {
+			ne, isNet := err.(net.Error)
+			return nil, !(isNet && ne.Timeout())
+		}
+		n := int(hdr[1])<<16 | int(hdr[2])<<8 | int(hdr[3])
+		if n < 20 {
+			return nil, false
+		}
+		rest := make([]byte, n-20)
+		if _, err := io.ReadFull(tc, rest); err != nil {
+			return nil, true
+		}
+		if ms, _ := splitMsgs(append(hdr, rest...)); len(ms) == 1 {
+			return &ms[0], false
+		}
+		return nil, false
+	}
+	tc.SetWriteDeadline(time.Now().Add(3 * time.Second))
+	if _, err := tc.Write(buildCER(c, dict.Default)); err != nil {
+		l.Note = "tls: write: " + err.Error()
+		return l
+	}
+	m, ended := readOne(3 * time.Second)
+	if m == nil {
+		l.Obs.Closed = ended
+		return l
+	}
+	l.Obs.CEA = parseCEA(m)
+	if l.Obs.CEA.RC == 2001 {
+		tc.SetWriteDeadline(time.Now().Add(3 * time.Second))
+		tc.Write(appMsg(272, 4, true, 99))
+		if s.waitFired(1, 3*time.Second) {
+			f := s.fired()[0]
+			if f.Meta {
+				l.Obs.Meta = metaObs{Present: true, OH: f.OH, OR: f.OR, Apps: [][]int{}}
+				for _, a := range f.Apps {
+					l.Obs.Meta.Apps = append(l.Obs.Meta.Apps, abs.B4(a))
+				}
+			}
+		}
+		_, ended = readOne(8 * time.Millisecond)
+		l.Obs.Closed = ended
+	} else {
+		_, ended = readOne(2 * time.Second) // the refusal is followed by the end of the stream
+		l.Obs.Closed = ended
+		if len(s.fired()) > 0 && s.fired()[0].Meta {
+			l.Obs.Meta.Present = true
+		}
+	}
+	return l
 }
